@@ -36,7 +36,7 @@ def compare(rec, b, mjm, mjd, m, d, cmp, opts):
     # float32 resolves it relative to the terms, not to the sum
     from .. import efc
 
-    fs = max(fs, float((np.abs(efc.dense_J(mjm, mjd)).T @ np.abs(np.array(mjd.efc_force))).max()) * 1e-3)
+    fs = max(fs, float((np.abs(efc.dense_J(mjm, mjd)).T @ np.abs(np.array(mjd.efc_force))).max()) * 5e-5)  # 2e-2 * 5e-5 = 1e-6 of the terms: a few float32 ulps
   if not discrete:
     mjw.inverse(m, d)
     for w in range(d.nworld):
